@@ -1,6 +1,8 @@
 // C04 — basic_inplace_string matches std::basic_string and is always null-terminated.
 // Engines: E1 rapidcheck operation histories (custom shrinker) over two strings of one (Char, Capacity) configuration with
 // std::basic_string<Char> as lock-step model; E2 exhaustive short histories for the small capacities.
+// Op families: C04_ops_construct (ctors/assign), C04_ops_modify, C04_ops_query, C04_ops_extra (arguments inside the string
+// itself, strings of another capacity, free erase with values of other types).
 //
 // One source, several translation units: props/registry.d/C04.json builds this file several times with -DC04_PART=<n>
 // (a TU with all 40 configurations would take minutes to compile); every part instantiates a slice of the table below.
